@@ -23,9 +23,28 @@ func TestC31(t *testing.T) {
 		}
 		locs = append(locs, l)
 	}
+	// UTC-offset transitions of every zone 2009-2023 (found by scanning), so that timestamps can be
+	// placed on the 23- and 25-hour days themselves: their first hours, the switch, their last hours
+	trans := map[string][]time.Time{}
+	for _, loc := range locs {
+		prevOff := -1 << 30
+		for d := time.Date(2009, 1, 1, 0, 0, 0, 0, time.UTC); d.Year() < 2024; d = d.Add(24 * time.Hour) {
+			_, off := d.In(loc).Zone()
+			if prevOff != -1<<30 && off != prevOff {
+				for h := d.Add(-24 * time.Hour); h.Before(d.Add(time.Hour)); h = h.Add(30 * time.Minute) {
+					if _, o2 := h.In(loc).Zone(); o2 == off {
+						trans[loc.String()] = append(trans[loc.String()], h.In(loc))
+						break
+					}
+				}
+			}
+			prevOff = off
+		}
+	}
 	rapid.Check(t, func(t *rapid.T) {
-		suffix := rapid.SampledFrom([]string{"Sec", "Min", "H", "D", "W", "M", "Y"}).Draw(t, "suffix")
-		mult := rapid.OneOf(rapid.IntRange(1, 4), rapid.SampledFrom([]int{1, 5, 7, 15, 30, 60, 90, 120, 1440}), rapid.IntRange(1, 9999)).Draw(t, "mult")
+		suffix := rapid.SampledFrom([]string{"Sec", "Min", "H", "D", "D", "W", "M", "Y"}).Draw(t, "suffix")
+		// calendar units are mostly used with multiplier 1
+		mult := rapid.OneOf(rapid.Just(1), rapid.IntRange(1, 4), rapid.SampledFrom([]int{1, 5, 7, 15, 30, 60, 90, 120, 1440}), rapid.IntRange(1, 9999)).Draw(t, "mult")
 		if suffix == "Y" && mult > 200 {
 			mult = mult%200 + 1 // multiples of years beyond time.Duration's range are not durations
 		}
@@ -45,7 +64,14 @@ func TestC31(t *testing.T) {
 			time.Date(2024, 2, 29, 12, 0, 0, 0, loc), time.Date(2021, 6, 14, 3, 0, 0, 0, loc), time.Date(2021, 6, 13, 23, 0, 0, 0, loc),
 		}).Draw(t, "base")
 		ts := base.Add(time.Duration(rapid.Int64Range(-90000, 90000).Draw(t, "offsetSec"))*time.Second + time.Duration(rapid.Int64Range(0, 999999999).Draw(t, "ns")))
-		if rapid.Bool().Draw(t, "random") {
+		if tl := trans[loc.String()]; len(tl) > 0 && rapid.IntRange(0, 2).Draw(t, "onTransitionDay") != 0 {
+			// a chosen hour of the day before, of, or after a transition, in local wall-clock terms
+			tr := rapid.SampledFrom(tl).Draw(t, "transition")
+			day := rapid.IntRange(-1, 1).Draw(t, "dayOffset")
+			hour := rapid.SampledFrom([]int{0, 0, 1, 2, 3, 12, 21, 22, 23, 23}).Draw(t, "hour")
+			ts = time.Date(tr.Year(), tr.Month(), tr.Day()+day, hour, rapid.IntRange(0, 59).Draw(t, "min"), rapid.IntRange(0, 59).Draw(t, "sec"),
+				rapid.SampledFrom([]int{0, 0, 1, 999999999, 500000000}).Draw(t, "nsec"), loc)
+		} else if rapid.Bool().Draw(t, "random") {
 			ts = time.Unix(rapid.Int64Range(631152000, 2208988800).Draw(t, "unix"), rapid.Int64Range(0, 999999999).Draw(t, "ns2")).In(loc)
 		}
 		tr, ce := cd.Truncate(ts), cd.Ceil(ts)
